@@ -4625,7 +4625,12 @@ def _set_tensor_dict(  # noqa: F811
         tensor = out
         out = out_tmp
 
-    if isinstance(tensor, torch.nn.Parameter):
+    if was_buffer and isinstance(tensor, torch.Tensor):
+        # a buffer slot stays a buffer slot, whatever the class of the incoming tensor:
+        # otherwise swapping a Parameter in and the original buffer back would leave the
+        # buffer in __dict__ (lost from named_buffers() and state_dict())
+        _buffers[name] = tensor
+    elif isinstance(tensor, torch.nn.Parameter):
         for hook in hooks:
             output = hook(module, name, tensor)
             if output is not None:
@@ -4637,8 +4642,6 @@ def _set_tensor_dict(  # noqa: F811
                 _add_batch_dim_pre_hook(), with_kwargs=True
             )
 
-    elif was_buffer and isinstance(tensor, torch.Tensor):
-        _buffers[name] = tensor
     else:
         __dict__[name] = tensor
     return out
